@@ -62,7 +62,12 @@ OptimizationStatus GradientDescent(const ObjectiveFunctionSingle &func, const Gr
         // reference paper associated with this function).
         double lhs(0), rhs(0);
         do {
-            if (status.performed_iterations >= max_iterations) return status;
+            if (status.performed_iterations >= max_iterations) {
+                // The iteration cap was reached inside the line search and the trial points were all rejected, undo the swaps so
+                // that the state holds the last accepted iterate (now sitting in x0) and not the one before it.
+                std::swap(x0, state.x);
+                return status;
+            }
             lhs = 0;
             rhs = 0;
             for (size_t j=0; j<num_dimensions; j++)
